@@ -199,5 +199,344 @@ example : Unit true ([27, 93] ++ [50] ++ payloadOf [.plain 59 (by decide), .plai
     (oscFinish 50 ([] ++ payloadOf [.plain 59 (by decide), .plain 97 (by decide), .pair 113 (by decide), .plain 98 (by decide)])) :=
   Unit.osc [27, 93] [50] 50 [] _ [27, 92] (Or.inl rfl) (Or.inl ⟨rfl, rfl, by decide, by decide⟩) (Or.inr (Or.inr rfl))
 
+/-! #### the grammar is unambiguous -/
+
+/-- the recogniser is busy (not in its ground state) -/
+def Busy (p : Parser) : Prop := p.taking = false
+
+theorem busy_after_esc (p : Parser) (hp : Ground p) : Busy (feed p [27]).1 := by
+  rw [feed_cons_special p hp 27 (by decide)]
+  simp only [esc_starts, feed]
+  rfl
+
+theorem busy_after_esc2 (p : Parser) (hp : Ground p) (x : Nat) (h : x = 35 ∨ x = 37 ∨ x = 40 ∨ x = 41 ∨ x = 91 ∨ x = 93) :
+    Busy (feed p [27, x]).1 := by
+  rw [feed_cons_special p hp 27 (by decide)]
+  simp only [esc_starts, List.nil_append]
+  rw [feed_cons_fsm _ rfl]
+  rcases h with e | e | e | e | e | e <;> subst e <;> cases hu : p.useUtf8 <;> simp [send, feed, dispatchTop, Busy, inStrList, isStr, BASIC, CSI, OSC] <;> rfl
+
+theorem busy_after_csi (p : Parser) (hp : Ground p) (i : List Nat) (hi : CsiIntro i) (pre : List Nat)
+    (hpre : ∀ c ∈ pre, csiInner c = true) : Busy (feed p (i ++ pre)).1 := by
+  rw [feed_csi_intro p hp i hi]
+  obtain ⟨d, c, _, hfeed⟩ := feed_csi_body pre { taking := false, fsm := .csi [] [] false, useUtf8 := p.useUtf8 }
+    [] [] [] rfl rfl (by simp [paramChars, splitSemi]) hpre
+  rw [hfeed]; rfl
+
+theorem busy_after_csi_dollar (p : Parser) (hp : Ground p) (i : List Nat) (hi : CsiIntro i) (pre : List Nat)
+    (hpre : ∀ c ∈ pre, csiInner c = true) : Busy (feed p (i ++ pre ++ [36])).1 := by
+  rw [List.append_assoc, feed_csi_intro p hp i hi, C02.feed_append]
+  obtain ⟨d, c, _, hfeed⟩ := feed_csi_body pre { taking := false, fsm := .csi [] [] false, useUtf8 := p.useUtf8 }
+    [] [] [] rfl rfl (by simp [paramChars, splitSemi]) hpre
+  rw [hfeed]
+  simp only
+  rw [feed_cons_fsm _ rfl]
+  simp only [(csi_dollar p.useUtf8 _ _ _ 0).1, feed]
+  rfl
+
+/-- a proper prefix of a list of inner characters + one more is a list of inner characters -/
+theorem take_inner (body : List Nat) (h : ∀ c ∈ body, csiInner c = true) (k : Nat) :
+    ∀ c ∈ body.take k, csiInner c = true := fun c hc => h c (List.mem_of_mem_take hc)
+
+/-- every proper non-empty prefix of `i ++ body ++ e` with `e` non-empty that is no longer than `i ++ body`
+    leaves the recogniser busy -/
+theorem busy_csi_prefix (p : Parser) (hp : Ground p) (i : List Nat) (hi : CsiIntro i) (body e : List Nat)
+    (hb : ∀ c ∈ body, csiInner c = true) (n : Nat) (h0 : 0 < n) (hn : n ≤ i.length + body.length) :
+    Busy (feed p ((i ++ body ++ e).take n)).1 := by
+  by_cases hi' : n < i.length
+  · -- inside the introducer: only `ESC` of `ESC [`
+    rcases hi with e1 | e1 <;> subst e1
+    · have : n = 1 := by simp at hi'; omega
+      subst this
+      simpa using busy_after_esc p hp
+    · simp at hi'; omega
+  · have hge : i.length ≤ n := by omega
+    have : (i ++ body ++ e).take n = i ++ body.take (n - i.length) := by
+      have hz : n - i.length - body.length = 0 := by omega
+      rw [List.append_assoc, List.take_append, List.take_of_length_le hge, List.take_append, hz]
+      simp
+    rw [this]
+    exact busy_after_csi p hp i hi _ (take_inner body hb _)
+
+/-- the state after the introducer, the head and a whole number of payload atoms -/
+theorem feed_osc_atoms (p : Parser) (hp : Ground p) (i head : List Nat) (code : Nat) (pfx : List Nat) (atoms : List Atom)
+    (hi : OscIntro i) (hh : OscHead head code pfx) :
+    feed p (i ++ head ++ payloadOf atoms) =
+      ({ taking := false, fsm := .oscParam code (pfx ++ payloadOf atoms), useUtf8 := p.useUtf8 }, []) := by
+  rw [List.append_assoc, feed_osc_intro p hp i hi]
+  have hhead : feed { taking := false, fsm := .oscCode, useUtf8 := p.useUtf8 } (head ++ payloadOf atoms) =
+      feed { taking := false, fsm := .oscParam code pfx, useUtf8 := p.useUtf8 } (payloadOf atoms) := by
+    rcases hh with ⟨e1, e2, hk, h82⟩ | ⟨x, e1, e2, e3, hx⟩
+    · subst e1 e2
+      have e82 : (code == 82) = false := by simpa using h82
+      have e27 : isStr code ESC = false := by simpa [isStr, ESC] using hk.2.2
+      have e7 : (code == 7) = false := by simpa using hk.1
+      have e9 : (code == 0x9c) = false := by simpa using hk.2.1
+      have hs : send p.useUtf8 .oscCode code = (.oscParam code [], []) := by
+        simp only [send, e82, e27, oscTerm_contains_one, e7, e9, Bool.or_self, Bool.false_eq_true, if_false]
+      simp only [List.cons_append, List.nil_append]
+      rw [feed_cons_fsm _ rfl]
+      simp only [hs, List.nil_append]
+      rfl
+    · subst e1 e2 e3
+      have e : (x == 92) = false := by simpa using hx
+      have hs : send p.useUtf8 .oscFirstEsc x = (.oscParam 27 [x], []) := by
+        simp only [send, oscTerm_contains_esc, e, Bool.false_eq_true, if_false]; rfl
+      simp only [List.cons_append, List.nil_append]
+      rw [feed_cons_fsm _ rfl]
+      have e1 : send p.useUtf8 .oscCode 27 = (.oscFirstEsc, []) := rfl
+      simp only [e1, List.nil_append]
+      rw [feed_cons_fsm _ rfl]
+      simp only [hs, List.nil_append]
+      rfl
+  rw [hhead, feed_atoms _ code pfx atoms ⟨rfl, rfl⟩]
+
+theorem busy_after_osc_intro (p : Parser) (hp : Ground p) (i : List Nat) (hi : OscIntro i) : Busy (feed p i).1 := by
+  have := feed_osc_intro p hp i hi []
+  simp only [List.append_nil] at this
+  rw [this]; rfl
+
+theorem busy_after_osc_intro_esc (p : Parser) (hp : Ground p) (i : List Nat) (hi : OscIntro i) : Busy (feed p (i ++ [27])).1 := by
+  rw [feed_osc_intro p hp i hi, feed_cons_fsm _ rfl]
+  have e1 : send p.useUtf8 .oscCode 27 = (.oscFirstEsc, []) := rfl
+  simp only [e1, feed]
+  rfl
+
+theorem busy_after_osc_atoms_esc (p : Parser) (hp : Ground p) (i head : List Nat) (code : Nat) (pfx : List Nat) (atoms : List Atom)
+    (hi : OscIntro i) (hh : OscHead head code pfx) : Busy (feed p (i ++ head ++ payloadOf atoms ++ [27])).1 := by
+  rw [C02.feed_append, feed_osc_atoms p hp i head code pfx atoms hi hh]
+  simp only
+  rw [feed_cons_fsm _ rfl]
+  have e1 : send p.useUtf8 (.oscParam code (pfx ++ payloadOf atoms)) 27 = (.oscParamEsc code (pfx ++ payloadOf atoms), []) := rfl
+  simp only [e1, feed]
+  rfl
+
+/-- a prefix of a payload is a payload, possibly followed by the ESC of a pair that was cut -/
+theorem payload_take (atoms : List Atom) : ∀ k, ∃ atoms', (payloadOf atoms).take k = payloadOf atoms' ∨
+    (payloadOf atoms).take k = payloadOf atoms' ++ [27] := by
+  induction atoms with
+  | nil => intro k; exact ⟨[], Or.inl (by simp [payloadOf])⟩
+  | cons a rest ih =>
+    intro k
+    cases a with
+    | plain c h =>
+      cases k with
+      | zero => exact ⟨[], Or.inl (by simp [payloadOf])⟩
+      | succ k =>
+        obtain ⟨at', h'⟩ := ih k
+        refine ⟨.plain c h :: at', ?_⟩
+        simp only [payloadOf, List.map_cons, List.flatten_cons, Atom.chars, List.singleton_append, List.take_succ_cons] at h' ⊢
+        rcases h' with h' | h'
+        · left; simp [h']
+        · right; simp [h']
+    | pair x h =>
+      cases k with
+      | zero => exact ⟨[], Or.inl (by simp [payloadOf])⟩
+      | succ k =>
+        cases k with
+        | zero =>
+          refine ⟨[], Or.inr ?_⟩
+          simp [payloadOf, Atom.chars]
+        | succ k =>
+          obtain ⟨at', h'⟩ := ih k
+          refine ⟨.pair x h :: at', ?_⟩
+          simp only [payloadOf, List.map_cons, List.flatten_cons, Atom.chars, List.cons_append, List.nil_append, List.take_succ_cons] at h' ⊢
+          rcases h' with h' | h'
+          · left; simp [h']
+          · right; simp [h']
+
+theorem take_append_cases {α : Type} (a b : List α) (n : Nat) :
+    (n ≤ a.length ∧ (a ++ b).take n = a.take n) ∨
+    (a.length < n ∧ (a ++ b).take n = a ++ b.take (n - a.length)) := by
+  by_cases h : n ≤ a.length
+  · left; exact ⟨h, List.take_append_of_le_length h⟩
+  · right
+    have h' : a.length < n := by omega
+    refine ⟨h', ?_⟩
+    rw [List.take_append, List.take_of_length_le (by omega)]
+
+theorem busy_osc_intro_prefix (p : Parser) (hp : Ground p) (i : List Nat) (hi : OscIntro i) (n : Nat) (h0 : 0 < n)
+    (hn : n ≤ i.length) : Busy (feed p (i.take n)).1 := by
+  by_cases he : n = i.length
+  · rw [he, List.take_length]; exact busy_after_osc_intro p hp i hi
+  · rcases hi with e | e <;> subst e
+    · have : n = 1 := by simp at hn he; omega
+      subst this; simpa using busy_after_esc p hp
+    · simp at hn he; omega
+
+theorem busy_after_osc_head (p : Parser) (hp : Ground p) (i head : List Nat) (code : Nat) (pfx : List Nat)
+    (hi : OscIntro i) (hh : OscHead head code pfx) : Busy (feed p (i ++ head)).1 := by
+  have := feed_osc_atoms p hp i head code pfx [] hi hh
+  simp only [payloadOf, List.map_nil, List.flatten_nil, List.append_nil] at this
+  rw [this]; rfl
+
+/-- THE READING IS UNIQUE, in the form that matters: the recogniser is never in its ground state strictly
+    inside a unit.  Together with `unit_sound` (it IS in the ground state at the end of one) this makes the set
+    of units prefix-free: no unit is a proper prefix of another, so an input has at most one reading as units. -/
+theorem unit_mid {utf8 : Bool} {s : List Nat} {ev : List Call} (h : Unit utf8 s ev)
+    (p : Parser) (hp : Ground p) (n : Nat) (h0 : 0 < n) (hn : n < s.length) :
+    Busy (feed p (s.take n)).1 := by
+  cases h with
+  | text c hc => simp at hn; omega
+  | c0 c hc => simp at hn; omega
+  | escFinal c hc =>
+    have : n = 1 := by simp at hn; omega
+    subst this; simpa using busy_after_esc p hp
+  | escHash c =>
+    have : n = 1 ∨ n = 2 := by simp at hn; omega
+    rcases this with e | e <;> subst e
+    · simpa using busy_after_esc p hp
+    · simpa using busy_after_esc2 p hp 35 (Or.inl rfl)
+  | escPercent c =>
+    have : n = 1 ∨ n = 2 := by simp at hn; omega
+    rcases this with e | e <;> subst e
+    · simpa using busy_after_esc p hp
+    · simpa using busy_after_esc2 p hp 37 (Or.inr (Or.inl rfl))
+  | escCharset m c hm =>
+    have : n = 1 ∨ n = 2 := by simp at hn; omega
+    rcases this with e | e <;> subst e
+    · simpa using busy_after_esc p hp
+    · rcases hm with e | e <;> subst e
+      · simpa using busy_after_esc2 p hp 40 (by simp)
+      · simpa using busy_after_esc2 p hp 41 (by simp)
+  | csi i body f hi hb hf =>
+    exact busy_csi_prefix p hp i hi body [f] hb n h0 (by simp at hn; omega)
+  | csiAbort i body c hi hb hc =>
+    exact busy_csi_prefix p hp i hi body [c] hb n h0 (by simp at hn; omega)
+  | csiDollar i body c hi hb =>
+    by_cases hle : n ≤ i.length + body.length
+    · exact busy_csi_prefix p hp i hi body [36, c] hb n h0 hle
+    · have hn' : n = i.length + body.length + 1 := by simp at hn; omega
+      have : (i ++ body ++ [36, c]).take n = i ++ body ++ [36] := by
+        rcases take_append_cases (i ++ body) [36, c] n with ⟨h1, _⟩ | ⟨_, h2⟩
+        · simp at h1; omega
+        · rw [h2]
+          have : n - (i ++ body).length = 1 := by simp; omega
+          rw [this]; rfl
+      rw [this]
+      exact busy_after_csi_dollar p hp i hi body hb
+  | oscPalette i hi =>
+    rcases take_append_cases i [82] n with ⟨h1, h2⟩ | ⟨h1, _⟩
+    · rw [h2]; exact busy_osc_intro_prefix p hp i hi n h0 h1
+    · simp at hn; omega
+  | oscEmpty i t hi ht =>
+    rcases take_append_cases i t n with ⟨h1, h2⟩ | ⟨h1, h2⟩
+    · rw [h2]; exact busy_osc_intro_prefix p hp i hi n h0 h1
+    · rw [h2]
+      rcases ht with e | e | e <;> subst e
+      · simp at hn; omega
+      · simp at hn; omega
+      · have : n - i.length = 1 := by simp at hn; omega
+        rw [this]
+        exact busy_after_osc_intro_esc p hp i hi
+  | osc i head code pfx atoms t hi hh ht =>
+    have hhl : head.length = 1 ∨ head.length = 2 := by
+      rcases hh with ⟨e, _⟩ | ⟨x, e, _⟩ <;> subst e <;> simp
+    rcases take_append_cases (i ++ head ++ payloadOf atoms) t n with ⟨h1, h2⟩ | ⟨h1, h2⟩
+    · rw [h2]
+      rcases take_append_cases (i ++ head) (payloadOf atoms) n with ⟨h3, h4⟩ | ⟨h3, h4⟩
+      · rw [h4]
+        rcases take_append_cases i head n with ⟨h5, h6⟩ | ⟨h5, h6⟩
+        · rw [h6]; exact busy_osc_intro_prefix p hp i hi n h0 h5
+        · rw [h6]
+          by_cases hfull : n - i.length = head.length
+          · rw [hfull, List.take_length]
+            exact busy_after_osc_head p hp i head code pfx hi hh
+          · -- a two-character head cut after its ESC
+            rcases hh with ⟨e, _⟩ | ⟨x, e, _⟩
+            · subst e; simp at h3 hfull; omega
+            · subst e
+              have : n - i.length = 1 := by simp at h3 hfull; omega
+              rw [this]
+              exact busy_after_osc_intro_esc p hp i hi
+      · rw [h4]
+        obtain ⟨at', hat⟩ := payload_take atoms (n - (i ++ head).length)
+        rcases hat with e | e <;> rw [e]
+        · rw [feed_osc_atoms p hp i head code pfx at' hi hh]; rfl
+        · rw [← List.append_assoc]
+          exact busy_after_osc_atoms_esc p hp i head code pfx at' hi hh
+    · rw [h2]
+      rcases ht with e | e | e <;> subst e
+      · simp at hn h1; omega
+      · simp at hn h1; omega
+      · have : n - (i ++ head ++ payloadOf atoms).length = 1 := by simp at hn h1 ⊢; omega
+        rw [this]
+        exact busy_after_osc_atoms_esc p hp i head code pfx atoms hi hh
+
+theorem unit_nonempty {utf8 : Bool} {s : List Nat} {ev : List Call} (h : Unit utf8 s ev) : 0 < s.length := by
+  cases h with
+  | text c _ => simp
+  | c0 c _ => simp
+  | escFinal c _ => simp
+  | escHash c => simp
+  | escPercent c => simp
+  | escCharset m c _ => simp
+  | csi i body f _ _ _ => simp; omega
+  | csiAbort i body c _ _ _ => simp; omega
+  | csiDollar i body c _ _ => simp; omega
+  | oscPalette i _ => simp
+  | oscEmpty i t hi _ => rcases hi with e | e <;> subst e <;> simp
+  | osc i head code pfx atoms t hi _ _ => rcases hi with e | e <;> subst e <;> simp
+
+/-- no unit is a proper prefix of another unit: an input has at most one reading as a sequence of units -/
+theorem unit_prefix_free {utf8 : Bool} {s s' : List Nat} {ev ev' : List Call} (h : Unit utf8 s ev) (h' : Unit utf8 s' ev')
+    (t : List Nat) (hst : s' = s ++ t) : t = [] := by
+  by_cases ht : t = []
+  · exact ht
+  · exfalso
+    have hs0 := unit_nonempty h
+    have htl : 0 < t.length := by
+      cases t with
+      | nil => exact absurd rfl ht
+      | cons _ _ => simp
+    let p : Parser := { taking := true, fsm := .ground, useUtf8 := utf8 }
+    have hp : Ground p := ⟨rfl, rfl⟩
+    have hb := unit_mid h' p hp s.length hs0 (by rw [hst]; simp; omega)
+    have htake : s'.take s.length = s := by rw [hst]; simp
+    rw [htake, unit_sound h p hp rfl] at hb
+    exact absurd hb (by simp [Busy, p])
+
+/-- Two readings of the same input as sequences of units are the same sequence of strings (and therefore,
+    by `grammar_spec`, of events): the documented grammar is unambiguous. -/
+theorem reading_unique {utf8 : Bool} (us : List (List Nat × List Call)) :
+    ∀ (us' : List (List Nat × List Call)), (∀ u ∈ us, Unit utf8 u.1 u.2) → (∀ u ∈ us', Unit utf8 u.1 u.2) →
+    (us.map Prod.fst).flatten = (us'.map Prod.fst).flatten → us.map Prod.fst = us'.map Prod.fst := by
+  induction us with
+  | nil =>
+    intro us' _ h' e
+    cases us' with
+    | nil => rfl
+    | cons u' r' =>
+      exfalso
+      have := unit_nonempty (h' u' (List.mem_cons_self ..))
+      simp only [List.map_nil, List.flatten_nil, List.map_cons, List.flatten_cons] at e
+      have := congrArg List.length e
+      simp at this
+      omega
+  | cons u r ih =>
+    intro us' h h' e
+    have hu := h u (List.mem_cons_self ..)
+    cases us' with
+    | nil =>
+      exfalso
+      have hne := unit_nonempty hu
+      simp only [List.map_nil, List.flatten_nil, List.map_cons, List.flatten_cons] at e
+      have e' := (List.append_eq_nil_iff.mp e).1
+      rw [e'] at hne
+      simp at hne
+    | cons u' r' =>
+      have hu' := h' u' (List.mem_cons_self ..)
+      simp only [List.map_cons, List.flatten_cons] at e ⊢
+      have key : u.1 = u'.1 := by
+        rcases List.append_eq_append_iff.mp e with ⟨t, e1, _⟩ | ⟨t, e1, _⟩
+        · have := unit_prefix_free hu hu' t e1
+          subst this; simpa using e1.symm
+        · have := unit_prefix_free hu' hu t e1
+          subst this; simpa using e1
+      rw [key] at e
+      have e2 := List.append_cancel_left e
+      rw [key, ih r' (fun x hx => h x (List.mem_cons_of_mem _ hx)) (fun x hx => h' x (List.mem_cons_of_mem _ hx)) e2]
+
+
 end C03
 end Memterm
